@@ -57,11 +57,19 @@ def callee(e):
     return None
 
 
+def call_targs(e):
+    """Explicitly written template arguments of a call (`Using<F>(x)` -> "F"), or None."""
+    for x in e[2:] if is_expr(e) else []:
+        if is_expr(x) and x[0] == "targs":
+            return x[1]
+    return None
+
+
 def call_args(e):
-    """Explicit arguments (without the object) of a call-like node."""
+    """Explicit arguments (without the object and without the template-argument marker) of a call-like node."""
     t = e[0]
     if t in ("call", "ctor", "ucall", "uctor"):
-        return e[2:]
+        return [x for x in e[2:] if not (is_expr(x) and x[0] == "targs")]
     if t in ("mcall", "vcall", "umcall"):
         return e[3:]
     if t == "opcall":
@@ -147,7 +155,7 @@ def show(e, top=True):
             return "%s(%s)" % (name, args)
         return "%s.%s(%s)" % (base, m if not m.startswith("operator ") else name, args)
     if t in ("call", "ucall"):
-        args = ", ".join(show(a, True) for a in e[2:] if not (is_expr(a) and a[0] == "defarg"))
+        args = ", ".join(show(a, True) for a in e[2:] if not (is_expr(a) and a[0] in ("defarg", "targs")))
         return "%s(%s)" % (e[1], args)
     if t == "ctor" or t == "uctor":
         args = ", ".join(show(a, True) for a in e[2:] if not (is_expr(a) and a[0] == "defarg"))
